@@ -115,6 +115,17 @@ def body(ctx: Ctx):
         h.setdefault("call_timeout", 6)
     outs = fe.run_many(hists, jobs=8)
     validated = evaluate(ctx, "C13", hists, outs, RELEVANT)
+    if not ctx.replay_file:
+        # hypothesis KeyOK of file_values (calls sharing a task key have the same value) against the key function the
+        # file executor uses: pairs differing in one component and a sweep of short-lived functions
+        from .c08 import key_pairs
+
+        badk = key_pairs(ctx)
+        ctx.oblige("hypothesis KeyOK: serialize_funct_h5 gives different calls different task keys (pairs and function sweep)", not badk)
+        if badk:
+            ctx.violation({"kind": "task_key_collision", "failing_input": True},
+                          {"what": "two different calls get the same task key: the later future is completed from the other call's result "
+                                   "file (hypothesis KeyOK of theorem file_values does not hold for the code)", "pairs": badk[:3]})
     return {
         "rule": "session histories of the real FileExecutor (subprocess back end): 1-3 sessions (interpreter lifetimes) over one directory, "
                 "1-5 calls per session with futures of earlier calls as positional / keyword top-level arguments, identical calls repeated "
